@@ -57,16 +57,15 @@ def check_buffer_methods(run, rule):
             if not ok:
                 why = "write_block() is guarded by %s, not by exactly the result of %s" % (show_f(g), adder)
         if ok:
-            # the value returned is the variable assigned from write_block(), initialised to 0
-            rets = [n for n in ir.walk(f["body"]) if n.get("k") == "Return"]
-            tgt = None
-            for lp, rhs, node in consumption.assignment_targets([wb[0][2]]):
-                if unwrap(rhs) is wb[0][0]:
-                    tgt = lp
-            init0 = tgt is not None and len(tgt) == 1 and const_value(env.defs.get(tgt[0])) == 0
-            ok = len(rets) == 1 and tgt is not None and path(rets[0].get("e")) == tgt and init0
+            # the value returned is 0 when nothing was written and the count of write_block() otherwise: decided by the
+            # byte-accounting dataflow (A3), which accepts every additive route from the call to the return
+            from .. import accounting
+            E_, is_prim_, kbs_ = accounting.emitter_set(facts)
+            sites_, rets_, accs_ = accounting.analyse(f, facts, E_, is_prim_, kbs_)
+            ok = bool(rets_) and all(s_.status is True for s_ in sites_) and all(r_[1] is True for r_ in rets_) and len(accs_) <= 1
             if not ok:
-                why = "the method does not return (0 | the count of the block written)"
+                why = "the method does not return (0 | the count of the block written): %s" % \
+                    "; ".join([s_.why for s_ in sites_ if s_.status is not True] + [r_[2] for r_ in rets_ if r_[1] is not True])
         run.ob(rule, "%s:flush-iff-full" % meth, ok, f, f["line"],
                "writes the block exactly when %s reports it full and returns that byte count, else 0" % adder if ok else why or "unexpected shape")
     run.floor(rule, 3, "buffer methods")
@@ -190,33 +189,36 @@ def check(run):
     ok = [f["key"] for f in callers] == [wb["key"]]
     run.ob("R12.5", "m_block.clear:only-write_block", ok, wb, wb["line"],
            "the buffered block is cleared only by write_block()" if ok else "m_block.clear() is also called from %s" % [short(f["qn"]) for f in callers if f["key"] != wb["key"]])
-    # no other exporter method mutates the block's item containers directly
+    # no other exporter method mutates the block's item containers directly (reading their size is not a mutation)
+    from .. import normalize
     for f in facts.functions.values():
         if f.get("cls") != EXP:
             continue
         for n in ir.walk(f["body"]):
-            if n.get("k") == "Member" and n.get("n") in ITEMS:
-                p = path(n)
-                if p and p[:2] == ("this", "m_block"):
-                    run.ob("R12.5", "%s:touches-%s" % (short(f["qn"]), n["n"]), False, f, n.get("l", 0), "exporter manipulates the block's item container directly")
+            for p, kind in normalize.node_writes(n, None):
+                if p and p[:2] == ("this", "m_block") and len(p) > 2 and p[2] in ITEMS:
+                    run.ob("R12.5", "%s:touches-%s" % (short(f["qn"]), p[2]), False, f, n.get("l", 0),
+                           "exporter manipulates the block's item container directly (%s)" % kind)
     run.floor("R12.5", 7, "conservation obligations")
 
-    # R12.6 counters
+    # R12.6 counters (the block's getters are inlined by the normalisation: the exporter's counter must come out as the
+    # size of the buffered block's container, and the block's own getter as the size of its container)
     for meth, inner, cont in (("get_block_qr_count", "get_qr_count", "m_query_responses"), ("get_block_aec_count", "get_aec_count", "m_address_event_counts"),
                               ("get_block_mm_count", "get_mm_count", "m_malformed_messages"), ("get_block_item_count", "get_item_count", None)):
         f = facts.fn("%s::%s" % (EXP, meth), rule="R12.6")
-        rets = [n for n in ir.walk(f["body"]) if n.get("k") == "Return"]
-        e = unwrap(rets[0]["e"]) if len(rets) == 1 else None
-        ok = isinstance(e, dict) and callee_qn(e) == "%s::%s" % (BLK, inner) and path(e.get("recv")) == ("this", "m_block")
         g = facts.fn("%s::%s" % (BLK, inner), rule="R12.6")
-        rets2 = [n for n in ir.walk(g["body"]) if n.get("k") == "Return"]
-        txt = show(rets2[0]["e"]) if len(rets2) == 1 else ""
-        if cont:
-            ok2 = txt == "this.%s.size()" % cont
-        else:
-            ok2 = all(("this.%s.size()" % m) in txt for m in ITEMS) and txt.count("size()") == 3 and "-" not in txt and "*" not in txt
-        run.ob("R12.6", "%s" % meth, ok and ok2, f, f["line"],
-               "delegates to the container size" if ok and ok2 else "%s returns %s / %s returns %s" % (meth, show(e) if e else "?", inner, txt))
+        res = []
+        for fn_, prefix in ((f, "this.m_block."), (g, "this.")):
+            rets = [n for n in ir.walk(fn_["body"]) if n.get("k") == "Return"]
+            txt = show(rets[0]["e"]) if len(rets) == 1 and rets[0].get("e") is not None else ""
+            if cont:
+                res.append((txt == "%s%s.size()" % (prefix, cont), txt))
+            else:
+                res.append((all(("%s%s.size()" % (prefix, m)) in txt for m in ITEMS) and txt.count("size()") == 3 and
+                            "-" not in txt and "*" not in txt, txt))
+        ok = res[0][0] and res[1][0]
+        run.ob("R12.6", "%s" % meth, ok, f, f["line"],
+               "reports the size of the buffered block's container(s)" if ok else "%s returns %s / %s returns %s" % (meth, res[0][1], inner, res[1][1]))
     bw = facts.fn(EXP + "::get_blocks_written_count", rule="R12.6")
     rets = [n for n in ir.walk(bw["body"]) if n.get("k") == "Return"]
     ok = len(rets) == 1 and path(rets[0]["e"]) == ("this", "m_blocks_written")
